@@ -24,7 +24,7 @@ def counts(objs):
 
 def _classes():
     from traits.api import (HasTraits, Any, Int, Float, Range, Either, Str, Tuple, List, Dict, Set, Event, Property, Instance,
-                            DelegatesTo)
+                            DelegatesTo, Expression)
 
     class D(HasTraits):
         dv = Any
@@ -66,7 +66,24 @@ def _classes():
 
         def _dflt_default(self):
             return [1, 2]
+
+        # dynamic defaults handing out the loop's current value
+        dd = Any
+        di = Int
+        ex = Expression
+
+        def _dd_default(self):
+            return _NEXT[0]
+
+        def _di_default(self):
+            return _NEXT[0]
+
+        def _ex_default(self):
+            return _NEXT[0]
     return T, D
+
+
+_NEXT = [None]
 
 
 _T = {}
@@ -94,6 +111,8 @@ def run_op(op):
         mk = lambda k: (lambda *args: None)
     elif op == "add_remove_trait":
         mk = lambda k: Int(k).as_ctrait()
+    elif op == "default_expr_ok":
+        mk = lambda k: "%d + %d" % (k + 1000, k)      # a fresh (not interned) text that is an expression
     vals = [mk(k) for k in range(K)]
     dyn = lambda new: None
     obs = lambda event: None
@@ -181,6 +200,15 @@ def run_op(op):
                 obj.remove_trait("extra")
             elif op == "default_read":
                 T().dflt
+            elif op in ("default_dyn_ok", "default_dyn_rejected", "default_expr_ok", "default_expr_rejected"):
+                _NEXT[0] = v
+                try:
+                    fresh = T()
+                    getattr(fresh, {"default_dyn_ok": "dd", "default_dyn_rejected": "di", "default_expr_ok": "ex",
+                                    "default_expr_rejected": "ex"}[op])
+                finally:
+                    _NEXT[0] = None
+                    fresh = None
             elif op == "trait_setq":
                 obj.trait_setq(a=v)
             elif op == "pickle_roundtrip":
